@@ -11,10 +11,10 @@ exactly, in order,
     default), split at `;`:  template with `?` replaced by the require string,
     made relative to the requiring file's directory unless it is absolute
 
-up to and including the first probe the file system answers "yes" to, which is
-also what is returned (None when none is).  A probe outside that list is a
-file looked for -- and then opened by the caller -- outside the permitted
-directories."""
+and the first of them the file system answers "yes" to is what is returned
+(None when none is).  A probe outside that list is a file looked for -- and
+then opened by the caller -- outside the permitted directories; a wrong
+return value is a file opened from the wrong place or a package not found."""
 import posixpath
 
 from ..absint import cx as CX
@@ -112,15 +112,16 @@ def report(ctx, res, rule='R-C12-locate'):
             probes, ret = _run(ctx, f, default, p, fp, lp, env, present)
             n += 1
             want_p, want_r = _expected(p, fp, lp, env, default, present)
+            # every candidate of the load path (a lookup may ask about later
+            # ones too: they are inside the load path all the same)
+            full, _none = _expected(p, fp, lp, env, default, set())
             if isinstance(ret, tuple) and ret and ret[0] == 'raise':
                 bad.append('{}: raises {}'.format(what, ret[1]))
-            elif probes != want_p:
-                extra = [x for x in probes if x not in want_p]
-                bad.append('{}: the file system is asked about {} instead of '
-                           '{}{}'.format(
-                               what, probes, want_p,
-                               ' -- {} lie(s) outside the load path'.format(
-                                   extra) if extra else ''))
+            elif [x for x in probes if x not in full]:
+                bad.append('{}: the file system is asked about {}, which is '
+                           'not one of the load-path candidates {}'.format(
+                               what, [x for x in probes if x not in full],
+                               full))
             elif ret != want_r:
                 bad.append('{}: returns {!r} instead of {!r}'.format(
                     what, ret, want_r))
@@ -129,10 +130,9 @@ def report(ctx, res, rule='R-C12-locate'):
                  str(e)[:140], f.loc)
         return False
     res.check(not bad, rule, q,
-              'the files looked for are exactly the load-path templates with '
-              'the require string substituted, relative to the requiring '
-              'file unless absolute, in order, up to the first hit '
-              '(evaluated)',
+              'the files looked for are load-path templates with the require '
+              'string substituted, relative to the requiring file unless '
+              'absolute; the first that exists is returned (evaluated)',
               '{} configurations (argument / environment / default load '
               'path, absolute and relative templates) on a recording '
               'stand-in file system; default load path {!r}'.format(
